@@ -14,7 +14,6 @@ import (
 	"bytes"
 	"fmt"
 	"io"
-	"os"
 	"sort"
 	"sync"
 	"runtime"
@@ -58,19 +57,14 @@ var c30SrcIDs = [][]byte{
 	{0xff, 0xfe, 0xfd, 0xfc, 0xfb, 0xfa, 0xf9, 0xf8, 0xf7, 0xf6, 0xf5, 0xf4, 0xf3, 0xf2, 0xf1, 0xf0, 0x00, 0x00, 0x80, 0x7f},
 }
 
-var (
-	c30ContentMu sync.Mutex
-	c30Content   = map[[2]int][]byte{}
-)
+var c30Content sync.Map // [2]int{n, seed} -> []byte
 
 // c30Bytes is deterministic filler (an LCG stream); it is content, not a
 // sampled dimension of the space. Slices are cached and must not be modified.
 func c30Bytes(n, seed int) []byte {
 	k := [2]int{n, seed}
-	c30ContentMu.Lock()
-	defer c30ContentMu.Unlock()
-	if b, ok := c30Content[k]; ok {
-		return b
+	if b, ok := c30Content.Load(k); ok {
+		return b.([]byte)
 	}
 	b := make([]byte, n)
 	x := uint32(seed)*2654435761 + 12345
@@ -78,8 +72,8 @@ func c30Bytes(n, seed int) []byte {
 		x = x*1664525 + 1013904223
 		b[i] = byte(x >> 24)
 	}
-	c30Content[k] = b
-	return b
+	v, _ := c30Content.LoadOrStore(k, b)
+	return v.([]byte)
 }
 
 // build creates the packet the way goloop does: NewPacket + header fields; an
@@ -706,13 +700,24 @@ func TestVerifC30(t *testing.T) {
 	ballast := make([]byte, 32<<20)
 	defer runtime.KeepAlive(ballast)
 	defer debug.SetGCPercent(debug.SetGCPercent(100))
-	r.Rule("part A: every packet of protocol{0,0x100,0xffff} x sub{0,0x501} x src{2} x dest{0,1,2,0xff} x ttl{0,1,255} x payloadLen{0,1,2,1023,1024,max} x ext(hint,len){(0,0),(1,1),(63,1023)} as a one-packet stream; " +
-		"part B: sequences of 1..3 packet shapes (payloadLen{0,1,2,1023,1024,4066,4096,max} x ext) with rotating header fields, written by the real PacketWriter " +
-		"(maximum-size payloads in triples only next to 4 partner shapes; quick: see coverage keys). " +
-		"Environment per stream: all-at-once (EOF separate / together with the last bytes), uniform chunk sizes 1..64, every chunking with <=2 cuts at every byte offset for streams <=200 bytes, " +
-		"for longer streams every single cut within +-12 bytes of each header/payload/footer/ext boundary and every cut pair from the same or adjacent boundary windows (+-12 one-packet streams, +-4 or +-12 otherwise); " +
-		"corruption: xor 0x01/0x80/0xff at every header offset and every payload offset (edges + stride inside payloads > 2048 bytes) plus footer/ext offsets. " +
-		"distinct_nontrivial = distinct (stream, environment family) pairs; every counted run cuts or alters a real stream")
+	common := "Streams are written by the real PacketWriter and read by the real PacketReader from an io.Reader whose chunking is enumerated. " +
+		"Part A = one-packet streams over the full field product protocol{0,0x100,0xffff} x sub{0,0x501} x src{2 ids} x dest{0,1,2,0xff} x ttl{0,1,255} x payloadLen x ext(hint,len){(0,0),(1,1),(63,1023)}; " +
+		"part B = sequences of 1..3 packet shapes over payloadLen{0,1,2,1023,1024,4066,4096,max=1MiB} x ext (24 shapes), header fields rotating with the position. " +
+		"Every stream: all-at-once with EOF delivered separately and together with the last bytes, relay (re-serialise what was read). " +
+		"Families: uniform = cut at every multiple of k; cuts<=2 = every chunking with at most 2 cuts at every byte offset (streams <= 200 bytes); " +
+		"boundary-cut1/2 (longer streams) = every single cut within +-w bytes of every header/payload/footer/ext boundary, every cut pair from the same or adjacent boundary windows; " +
+		"corrupt = one byte xor {0x01,0x80,0xff}: header or payload byte => that packet must be rejected and earlier packets delivered intact; footer/ext bytes => no panic, earlier packets intact. "
+	if quick {
+		r.Rule(common + "QUICK: A: payloadLen{0,1,2,1023,1024}; <=200B: cuts<=1, uniform 1..64, corrupt every offset; longer: uniform{1,7,64}, cut1 w=4, corrupt header+12-byte payload edges+footer. " +
+			"B singles: uniform 1..64, cuts<=2 or cut1/cut2 w=12, corrupt every header/payload offset (stride 97 above 2048 B); max payload: uniform{1,64}, cut1 w=4, corrupt xor 0x80 at header, 2-byte edges, stride 131101. " +
+			"B pairs: all 21^2 non-max pairs (uniform 8 sizes, cut1 w=12, cut2 w=2, corrupt header+edges) + one max payload next to 2 partner shapes (uniform{1,64}, cut1 w=2). " +
+			"B triples: the 4 shapes payloadLen{0,1} x ext{(0,0),(1,1)} with cuts<=2 and uniform 1..64. distinct_nontrivial = distinct (stream, family) pairs")
+	} else {
+		r.Rule(common + "THOROUGH: A: payloadLen{0,1,2,1023,1024,max}; <=200B: cuts<=2, uniform 1..64, corrupt every offset; 1023/1024: uniform 1..64, cut1 w=12, corrupt every offset; max: uniform{1,64}, corrupt header xor 0x80. " +
+			"B singles: uniform 1..64, cuts<=2 or cut1/cut2 w=12, corrupt every header/payload offset (stride 97 above 2048 B, 997 for max). " +
+			"B pairs: all 21^2 non-max pairs (uniform 1..64, cut1/cut2 w=12, corrupt header+edges) + max payload next to 4 partner shapes and max-max (uniform 8 sizes, cut1 w=4, cut2 w=2, corrupt header xor 0x80). " +
+			"B triples: all 21^3 non-max triples (<=200B: cuts<=2 + uniform 1..64; else uniform 8 sizes, cut1 w=12, cut2 w=2) + max payloads next to 2 partner shapes (uniform{1,7,64}, cut1 w=2). distinct_nontrivial = distinct (stream, family) pairs")
+	}
 	r.Assume("a chunking is a partition of the byte stream into the results of successive Read calls; Read never returns 0 bytes without error",
 		"payload/ext contents are one fixed pseudo-random filler per (length, position); detection of a shortened-length header relies on that filler not colliding with FNV-1a (deterministic, not a sampled dimension)",
 		"extend-info and ext bytes are not covered by the packet hash by design: corruption there is only required not to panic and not to disturb earlier packets",
@@ -848,10 +853,10 @@ func TestVerifC30(t *testing.T) {
 			}
 		case 3:
 			if !small {
-				lv.uniform = u8
+				lv.uniform, lv.win2 = u8, 2
 			}
 			if big > 0 {
-				lv.uniform, lv.win1 = []int{1, 7, 64}, 2
+				lv.uniform, lv.win1, lv.win2 = []int{1, 7, 64}, 2, 0
 				parts = 2
 			}
 		}
@@ -860,26 +865,6 @@ func TestVerifC30(t *testing.T) {
 		return true
 	})
 
-	if f := os.Getenv("C30_ONLY"); f != "" { // DEBUG
-		var js []job
-		for _, j := range jobs {
-			tot, big := 0, false
-			for _, s := range j.specs {
-				tot += s.size()
-				big = big || s.PLen > 8192
-			}
-			cls := "medium"
-			if tot <= 200 {
-				cls = "small"
-			} else if big {
-				cls = "big"
-			}
-			if cls == f {
-				js = append(js, j)
-			}
-		}
-		jobs = js
-	}
 	var incomplete int64
 	ev.Par(len(jobs), 16, func(i int) {
 		if r.Expired() {
